@@ -11,6 +11,8 @@ Also <A.N x, x> is real and >= 0 (A.N is Hermitian PSD as a map).
 import numpy as np
 
 from vf import lops
+from vf.monitors import STATE
+from vf.oracles import ndft as ONDFT
 from vf.common import Plan, crandn, held, violated, inconclusive, rng_for, nrm, inner, pick
 
 SPEC = {
@@ -96,7 +98,16 @@ def run_case(case):
     wit = {"desc": desc, "repr": repr(A)}
     toep = desc["op"] == "NUFFT" and desc.get("toeplitz")
     if toep:
-        tol = 2 * TOEP_EPS[(desc["oversamp"], desc["width"])]
+        # Both T x and A^H(A x) approximate the exact Gram product; each nufft pass is
+        # accurate to eps_nd = max(stated accuracy, separable worst-case bound of the kernel)
+        # relative to its exact output, the psf carries two passes and A^H A two more:
+        #   ||T x - A^H A x|| <= 4 eps_nd ||E||_2 ||A x||      (E = exact NDFT matrix)
+        from vf.workloads.c06 import sep_bound
+        eps_nd = max(TOEP_EPS[(desc["oversamp"], desc["width"])],
+                     sep_bound(desc["oversamp"], desc["nd"]))
+        tol = 4 * eps_nd
+        coord = lops.leaf_arrays(desc)["coord"]
+        opn = float(np.linalg.norm(ONDFT.ndft_matrix(coord, desc["ishape"][-desc["nd"]:]), 2))
     else:
         tol = 1e-10
     obs = {}
@@ -113,18 +124,18 @@ def run_case(case):
             if k == 2 and x.size:           # sparse probe: isolates coverage-count errors
                 x = np.zeros(tuple(A.ishape), np.complex128)
                 x.reshape(-1)[int(rng.integers(x.size))] = 1 + 1j
-            ref = np.asarray(AH(A(x)))
+            STATE.peak = 0.0
+            Ax_ = A(x)
+            ref = np.asarray(AH(Ax_))
             got = np.asarray(N(x))
             checks += 1
             if got.shape != ref.shape:
                 return violated(sig, "A.N x has shape %s, A.H(A x) has %s" % (
                     got.shape, ref.shape), wit, mech="shape")
             if toep:
-                sc = nrm(ref)
-                if k == 2:
-                    continue     # statement's accuracy is a relative l2 figure on generic data
+                sc = max(nrm(ref), opn * nrm(Ax_))
             else:
-                sc = nrm(ref) + 1e-3 * nrm(x)
+                sc = nrm(ref) + 1e-3 * max(nrm(x), STATE.peak)
             e = nrm(got - ref) / sc if sc > 0 else nrm(got - ref)
             worst = max(worst, e)
             if not e <= tol:
